@@ -244,3 +244,37 @@ def plan_C10(ctx):
 
 
 CLAIMED["C10"] = plan_C10
+
+
+# ------------------------------------------------------------------------------------------------
+# C17
+
+
+def plan_C17(ctx):
+    maxn = ctx.q(6, 10)
+    lines = ["package c17", ""]
+    for form, name in enumerate(["for", "while", "loop", "for_nocond"]):
+        lines.append("func Drive_%s() { DriveLoop(%d, %d) }" % (name, form, maxn))
+    lines.append("func Drive_nested() { DriveNested(%d) }" % ctx.q(4, 8))
+    with open(os.path.join(ctx.ws, "rt/c17/zz_drivers.go"), "w") as f:
+        f.write("\n".join(lines) + "\n")
+    os.remove(os.path.join(ctx.ws, "rt/c17/drivers_dev.go"))
+    args = engine_common(ctx)
+    args[args.index("-maxpaths") + 1] = "100000"
+    res = runner.run_engine(ctx, ["-harness", "verifws/rt/c17"] + args)
+    new, known, replayed, mism, details = process_harness(ctx, res, "rt/c17")
+    extra = {
+        "bounds": {"non_yielding_iterations_n": "0..%d (symbolic, each iteration ends Normal or Continue)" % maxn,
+                   "loop_forms": ["For(cond,post,body)", "While", "Loop", "For(nil,post,body)", "While nested in While"],
+                   "rounds": "first advance and an advance after a resumption",
+                   "outside": "n beyond the bound: 'independent of n' for larger n rests on every iteration executing the same code, which is not proved here; native stack bytes (the engine counts interpreter frames, the native replay counts runtime.Callers frames)"},
+        "exhaustive": True,
+        "explanation": "depth is sampled in the loop condition / body thunk at every iteration; the harness asserts depth_j == depth_1 for all j >= 2; the solver enumerates n and the per-iteration completion kinds",
+        "details": details[:20],
+    }
+    return finish(ctx, res, "model_checking", new, known, replayed, mism, extra,
+                  ["verifrt.Depth() = interpreter frame depth (sum over the resumer chain); Go has no tail calls, so frame count is a faithful proxy for stack growth up to a constant factor"],
+                  floors={"paths_completed": ctx.q(100, 1000)})
+
+
+CLAIMED["C17"] = plan_C17
